@@ -11,6 +11,8 @@ from . import common as C
 from . import rhs_lib as L
 from . import ode_oracles as O
 
+CLAIM_MORE = 'NOW PROVED beyond one edge (coq/Props/C08t.v, 30 statements): with the master equation as an executable specification for any graph and direction-/node-dependent rates — pure and product-form initial conditions lie in the manifold M where the 2x2 minors across a susceptible cut vertex vanish; the master flow is tangent to M for every graph and cut vertex; on M the regenerated pair-based right-hand side at the marginals equals the marginals of the master equation, for every graph accepted by the executable tree_okb (evaluated on every tree up to 7/8 nodes on each run). Cited: the ODE lift to the returned curves.'
+
 CLAIM = dict(
     text="Machine-checked theorems (coq/Props/C08.v, closed under the global context) over right-hand sides GENERATED from EoN/analytic.py on "
          "every run: tau=0 => dS=0 (SIR) / d(S+I)=0 (SIS) and dI=-gamma*I for all 12 translated scalar/1-D models; gamma=0 => SIS and SIR "
